@@ -104,12 +104,12 @@ theorem addressed_entries : ∀ (u : Fields), addressed u = (entries u).flatMap 
 
 /-- the update made of one entry runs that entry's step -/
 theorem applyUpdate_single (spec now : Val) (wi : Bool) (e : Entry) (d : Val)
-    (he : e.1.startsWith "$" = true) :
+    (he : e.1.startsWith "$" = true) (hp : positionalUpdate (single e) = false) :
     applyUpdate spec (.doc (single e)) now wi d = estep spec now wi d e := by
   have hw : (single e).any (fun kv => kv.1.startsWith "$") = true := by
     simp [single, he]
-  simp only [single] at hw ⊢
-  simp only [applyUpdate]
+  simp only [single] at hw hp ⊢
+  simp only [applyUpdate, hp, Bool.false_eq_true, if_false]
   rw [applyOps_eq spec now wi _ hw]
   simp only [List.foldlM_cons, List.foldlM_nil, estep]
   exact bind_ok_id _
